@@ -25,22 +25,17 @@ func (m *Machine) modelByPattern(fn *ssa.Function) Model {
 		switch {
 		case strings.HasSuffix(name, ").Load"):
 			return func(m *Machine, fr *Frame, args []Value) Value {
-				m.schedPoint("atomic.Load")
-				return m.loadBits(args[0].(*Term), 8)
+				return m.atomicLoad(args[0].(*Term))
 			}
 		case strings.HasSuffix(name, ").Store"):
 			return func(m *Machine, fr *Frame, args []Value) Value {
-				m.schedPoint("atomic.Store")
-				m.storeBits(args[0].(*Term), args[1].(*Term), 8)
-				m.publish(args[1].(*Term), 2)
+				m.atomicStore(args[0].(*Term), args[1].(*Term))
 				return nil
 			}
 		}
 	}
 	return nil
 }
-
-func (m *Machine) schedPoint(what string) {}
 
 func boolTerm(m *Machine, b bool) *Term { return m.ctx.Bool(b) }
 
@@ -540,13 +535,10 @@ func buildModels(P *Program) map[string]Model {
 
 	// ---------------- sync/atomic ----------------
 	M["sync/atomic.LoadPointer"] = func(m *Machine, fr *Frame, a []Value) Value {
-		m.schedPoint("atomic.Load")
-		return m.loadBits(a[0].(*Term), 8)
+		return m.atomicLoad(a[0].(*Term))
 	}
 	M["sync/atomic.StorePointer"] = func(m *Machine, fr *Frame, a []Value) Value {
-		m.schedPoint("atomic.Store")
-		m.storeBits(a[0].(*Term), a[1].(*Term), 8)
-		m.publish(a[1].(*Term), 2)
+		m.atomicStore(a[0].(*Term), a[1].(*Term))
 		return nil
 	}
 	// ---------------- sync ----------------
@@ -555,9 +547,11 @@ func buildModels(P *Program) map[string]Model {
 		if !p.IsConst() {
 			m.unsupported("symbolic *sync.Pool")
 		}
+		m.schedPoint("Pool.Get")
 		st := m.pools[p.Val]
 		if st != nil && len(st.items) > 0 && m.poolPolicy != "fresh" {
 			x := st.items[len(st.items)-1]
+			m.syncAcquire(poolItemKey(m, x)) // Put(x) happens before the Get that returns x
 			nst := &PoolState{items: append([]Value(nil), st.items[:len(st.items)-1]...)}
 			m.pools[p.Val] = nst
 			m.markReleased(x, false)
@@ -583,6 +577,8 @@ func buildModels(P *Program) map[string]Model {
 		if tw := m.simp(x[0].(*Term)); tw.IsConst() && tw.Val == 0 {
 			return nil
 		}
+		m.schedPoint("Pool.Put")
+		m.syncRelease(poolItemKey(m, x))
 		st := m.pools[p.Val]
 		nst := &PoolState{}
 		if st != nil {
@@ -596,13 +592,22 @@ func buildModels(P *Program) map[string]Model {
 	lock := func(name string, held bool) {
 		M[name] = func(m *Machine, fr *Frame, a []Value) Value {
 			p := m.simp(a[0].(*Term))
-			if p.IsConst() {
-				if held && m.mutexes[p.Val] && strings.HasSuffix(name, ".Lock") {
-					m.violate("monitor", "deadlock: recursive Lock of a held mutex", nil)
-					panic(&pathEnd{"fault", "deadlock"})
-				}
-				m.mutexes[p.Val] = held
+			if !p.IsConst() {
+				m.unsupported("symbolic mutex address")
 			}
+			if m.sched != nil && m.sched.cur != nil {
+				if held {
+					m.mutexLock(p.Val, false)
+				} else {
+					m.mutexUnlock(p.Val, false)
+				}
+				return nil
+			}
+			if held && m.mutexes[p.Val] && strings.HasSuffix(name, ".Lock") {
+				m.violate("monitor", "deadlock: recursive Lock of a held mutex", nil)
+				panic(&pathEnd{"fault", "deadlock"})
+			}
+			m.mutexes[p.Val] = held
 			return nil
 		}
 	}
@@ -610,8 +615,24 @@ func buildModels(P *Program) map[string]Model {
 	lock("(*sync.Mutex).Unlock", false)
 	lock("(*sync.RWMutex).Lock", true)
 	lock("(*sync.RWMutex).Unlock", false)
-	M["(*sync.RWMutex).RLock"] = func(m *Machine, fr *Frame, a []Value) Value { return nil }
-	M["(*sync.RWMutex).RUnlock"] = func(m *Machine, fr *Frame, a []Value) Value { return nil }
+	rlock := func(acq bool) Model {
+		return func(m *Machine, fr *Frame, a []Value) Value {
+			if m.sched != nil && m.sched.cur != nil {
+				p := m.simp(a[0].(*Term))
+				if !p.IsConst() {
+					m.unsupported("symbolic mutex address")
+				}
+				if acq {
+					m.mutexLock(p.Val, true)
+				} else {
+					m.mutexUnlock(p.Val, true)
+				}
+			}
+			return nil
+		}
+	}
+	M["(*sync.RWMutex).RLock"] = rlock(true)
+	M["(*sync.RWMutex).RUnlock"] = rlock(false)
 
 	// ---------------- fmt / errors / strings / strconv / sort / os ----------------
 	M["fmt.Sprintf"] = func(m *Machine, fr *Frame, a []Value) Value {
@@ -1016,4 +1037,38 @@ func (m *Machine) publish(p *Term, depth int) {
 		m.callFunction(cb, []Value{p}, nil)
 		m.inCallback = false
 	}
+}
+
+func (m *Machine) atomicLoad(p *Term) Value {
+	m.schedPoint("atomic.Load")
+	if q := m.simp(p); q.IsConst() {
+		m.syncAcquire(q.Val)
+	}
+	saved := m.sched
+	m.sched = nil // the atomic access itself is not a plain access
+	v := m.loadBits(p, 8)
+	m.sched = saved
+	return v
+}
+
+func (m *Machine) atomicStore(p, v *Term) {
+	m.schedPoint("atomic.Store")
+	if q := m.simp(p); q.IsConst() {
+		m.syncRelease(q.Val)
+	}
+	saved := m.sched
+	m.sched = nil
+	m.storeBits(p, v, 8)
+	m.sched = saved
+	m.publish(v, 2)
+}
+
+// poolItemKey: synchronisation object standing for one pooled item (its data word), distinct from real addresses.
+func poolItemKey(m *Machine, x Value) uint64 {
+	if a, ok := x.(Agg); ok && len(a) == 2 {
+		if d := m.simp(a[1].(*Term)); d.IsConst() {
+			return d.Val | 1<<63
+		}
+	}
+	return 1 << 63
 }
